@@ -100,3 +100,67 @@ func Harness_C06_description_rights() {
 	}
 	verifReach("end")
 }
+
+// {set sub} / {set desc private} sent to a topic that is NOT loaded: the hub answers from the store alone
+// (replyOfflineTopicSetSub). The stored rows must keep exactly one owner, only the requester's own requested
+// mode / private data may change, nobody's grant changes, and the request gets exactly one reply.
+func Harness_C06_offline_set_sub() {
+	w := verifSubSetup(2)
+	t := w.t
+	users := w.allUsers()
+	actor := users[verifChoose("actor", len(users))]
+	sess := verifNewSession("sid-offline", actor, auth.LevelAuth, 16)
+	type row struct{ want, given types.AccessMode }
+	before := map[types.Uid]row{}
+	for _, u := range users {
+		if sub := w.fx.store.subs[verifSubKey(t.name, u)]; sub != nil {
+			before[u] = row{sub.ModeWant, sub.ModeGiven}
+		}
+	}
+	msg := &ClientComMessage{Id: "r1", AsUser: actor.UserId(), AuthLvl: int(auth.LevelAuth), Original: t.name, RcptTo: t.name,
+		Timestamp: types.TimeNow(), sess: sess, init: true, MetaWhat: constMsgMetaSub}
+	set := &MsgClientSet{Id: "r1", Topic: t.name}
+	if verifNondetBool("withSub") {
+		set.Sub = &MsgSetSub{Mode: verifReqMode("mode")}
+		switch verifChoose("subUser", 3) {
+		case 1:
+			set.Sub.User = actor.UserId()
+		case 2:
+			set.Sub.User = users[verifChoose("target", len(users))].UserId()
+		}
+	}
+	if verifNondetBool("withPrivate") {
+		set.Desc = &MsgSetDesc{Private: "mine"}
+	}
+	msg.Set = set
+	replyOfflineTopicSetSub(sess, msg)
+	replies := 0
+	for _, r := range verifDrainSend(sess) {
+		if r != nil && r.Ctrl != nil && r.Ctrl.Id == "r1" {
+			replies++
+		}
+	}
+	verifAssert(replies == 1, "offline-set-answered-exactly-once")
+	owners := 0
+	for _, u := range users {
+		sub := w.fx.store.subs[verifSubKey(t.name, u)]
+		b, had := before[u]
+		verifAssert((sub != nil) == had, "offline-set-creates-or-removes-no-subscription")
+		if sub == nil {
+			continue
+		}
+		verifAssert(sub.ModeGiven == b.given, "offline-set-changes-no-grant")
+		if u != actor {
+			verifAssert(sub.ModeWant == b.want, "requested-mode-changed-only-by-its-user")
+		}
+		if sub.DeletedAt == nil && (sub.ModeWant & sub.ModeGiven).IsOwner() {
+			owners++
+			verifAssert(u == w.ownerBefore, "stored-owner-is-the-recorded-owner")
+		}
+		if u != w.ownerBefore {
+			verifAssert(!sub.ModeWant.IsOwner(), "no-non-owner-requests-ownership")
+		}
+	}
+	verifAssert(owners == 1, "exactly-one-stored-owner")
+	verifReach("end")
+}
